@@ -143,8 +143,38 @@ def c15_to_callbacks(scripts, seed):
                dict(op="Verify", c=0, tok=forge("none"))]
 
 
+def c15_alias():
+    """What is stored on the builder and what is done to the per-call token object are two maps: a member of
+    every type is stored on the builder, a callback replaces / deletes the same name on the token (or the library
+    stamps iat / nbf / exp over it), a token is generated (twice), and the builder is read back."""
+    vals = [("int", W(5), W(77)), ("str", "x", "y"), ("bool", 1, 0)]
+
+    def gen(seed):
+        for which in ("clm", "hdr"):
+            for t, v1, v2 in vals:
+                for name in ("a", "iat", "exp", "nbf", "typ"):
+                    for cbk in ("set", "del", "delall", "none"):
+                        ops = [dict(op="BNew", b=0), dict(op="BMap", b=0, k="set", which=which, v=val(t, name, v1, 0))]
+                        if cbk == "set":
+                            ops.append(dict(op="BSetCb", b=0, prog=[dict(k="set", which=which, map=1, v=val(t, name, v2, 1))]))
+                        elif cbk == "del":
+                            ops.append(dict(op="BSetCb", b=0, prog=[dict(k="del", which=which, map=1, v=val("int", name))]))
+                        elif cbk == "delall":
+                            ops.append(dict(op="BSetCb", b=0, prog=[dict(k="del", which=which, map=1, v=val("int", "~"))]))
+                        ops += [dict(op="BOffset", b=0, claim="exp", secs=W(600)), dict(op="BOffset", b=0, claim="nbf", secs=W(5)),
+                                dict(op="Generate", b=0, slot=0), dict(op="BMap", b=0, k="get", which=which, v=val(t, name)),
+                                dict(op="Generate", b=0, slot=1), dict(op="BMap", b=0, k="get", which=which, v=val("json", "~"))]
+                        yield ops
+            # a nested object stored on the builder, an object of the same name merged into the token by the callback
+            ops = [dict(op="BNew", b=0), dict(op="BMap", b=0, k="set", which=which, v=val("json", "o", OBJ_TEXT, 0, "obj", OBJ_M, OBJ_TEXT)),
+                   dict(op="BSetCb", b=0, prog=[dict(k="set", which=which, map=1, v=val("json", "~", OBJ2_TEXT, 1, "obj", OBJ2_M, '{"l":[true],"n":null,"o":{"x":1},"r":1.5}'))]),
+                   dict(op="Generate", b=0, slot=0), dict(op="BMap", b=0, k="get", which=which, v=val("json", "~"))]
+            yield ops
+    return gen
+
+
 OBJ2_TEXT = '{"r":1.5,"n":null,"o":{"x":1},"l":[true]}'
-OBJ2_M = [mem("l", "arr", "[true]"), mem("n", "null", "null"), mem("o", "obj", '{"x":1}'), mem("r", "real", "real")]
+OBJ2_M = [mem("l", "arr", "[true]"), mem("n", "null", "null"), mem("o", "obj", '{"x":1}'), mem("r", "real", "1.5")]
 OBJ_TEXT = '{"a":1,"c":"z"}'
 OBJ_M = [mem("a", "int", "", W(1)), mem("c", "str", "z")]
 
@@ -636,6 +666,14 @@ def c11_users(maxlen):
                 hm = [mem("h", "str", "y" * (n % 5 + h))] if (n + h) % 2 else []
                 ops.append(dict(op="Verify", c=0, tok=forge("none", hdr_m=hm, pay_m=[mem("p", "str", "x" * n)])))
             yield ops
+            if n < 12:
+                # member text that is not base64url as a whole although a prefix of it is (escaped NUL, then anything):
+                # no key may come out of it, through any entry point
+                tails = ["\\u0000QUJD", "\\u0000", "\\u0000@@@@", "\\u0000=", "\\u0001QUJD", " QUJD"]
+                kdoc = '{"keys":[{"kty":"oct","k":"QUJDQUJDQUJDQUJDQUJDQUJDQUJDQUJDQUJDQUJDQUJD%s"},{"kty":"oct","alg":"HS256","k":"QU%sJD"}]}' % (tails[n % 6], tails[(n + 1) % 6])
+                via = ["create", "create_strn", "create_fromfile", "create_fromfp", "load", "load_strn", "fromfile", "fromfp"][n % 8]
+                pre = [dict(op="Load", ring=1, via="create", doc="keys", keys=[octk(32)])] if via in ("load", "load_strn", "fromfile", "fromfp") else []
+                yield pre + [dict(op="Load", ring=1, via=via, doc="allbad", keys=[], hex=kdoc.encode().hex())]
             k = octk(32)
             yield [dict(op="Load", ring=0, via="create", doc="keys", keys=[k]), dict(op="CNew", c=0),
                    dict(op="CSetKey", c=0, alg="HS256", ring=0, key=0),
